@@ -14,13 +14,13 @@ RULE = ('Hypothesis-generated scenarios on a real Maintainer + Environment: capa
         'available_capacity after every event, every start is one the reference selected, one order per target, '
         'duration read at start, end hook exactly start + duration, hooks once each, cost charged once; at every '
         'quiescent instant started-and-unfinished == reference-active and no queued order that fits with a free '
-        'target is left waiting. Non-trivial = at least one order overtook an earlier one that did not fit AND at '
+        'target is left waiting. Tags include tuples built afresh per request (equal but not identical objects). A second phase uses non-dyadic fractional capacities (0.1, 0.2, 0.3, 0.7 of 0.3 / 1 / 1.5): there the reference acceptor is not compared (whether 0.1 + 0.2 fits into 0.3 is a float question the statement does not settle) and only rounding-independent oracles decide: when no order is in progress available_capacity equals the total capacity exactly and no queued order needing at most the total capacity is left waiting; duplicates, one order per target, hooks once, exact durations as before. Non-trivial = at least one order overtook an earlier one that did not fit AND at '
         'least one order had to wait for its target; distinct = SHA-1 of the canonical case JSON.')
 ASSUMPTIONS = ['documented scanning discipline: try_working_requests runs when requests are made and when requests complete',
                'starts within one instant are compared as a set (their relative order is a tie-break outcome)',
                'a request identical to the order whose own end hook is running may be answered either way']
 
-TAGS = [None, 'a', 'b']
+TAGS = [None, 'a', 'b', ['pm', 1]]
 G = [0, 0, 0.5, 1, 2, 3.25]
 
 
@@ -50,10 +50,35 @@ def cases(max_req):
                      st.integers(0, 10 ** 6), st.sampled_from([6, 12, 20]), st.booleans())
 
 
+def valid(case):
+    return (len(case.get('tb', [])) == 2 and case['T'] > 0 and case['targets'] >= 1
+            and all(len(v) == 3 and v[0] >= 0 and v[1] >= 0 for v in case['table'].values())
+            and len(case['table']) == case['targets'] * len(TAGS)
+            and all(r[0] >= 0 and r[1] > 1 for r in case['requests'])
+            and (case['capacity'] == 'inf' or case['capacity'] >= 0))
+
+
+def noise_cases(max_req):
+    """Fractional (non-dyadic) capacities: 0.1, 0.2, 0.3, 0.7 of a maintainer capacity 0.3 / 1 / 1.5."""
+    def fix(case, caps, mcap):
+        case = dict(case)
+        case['noise'] = True
+        case['capacity'] = mcap
+        table = {}
+        for i, (k, v) in enumerate(sorted(case['table'].items())):
+            table[k] = [v[0], caps[i % len(caps)], max(v[2], 0)]
+        case['table'] = table
+        return case
+    return st.builds(fix, cases(max_req), st.lists(st.sampled_from([0.1, 0.1, 0.2, 0.3, 0.7, 1]), min_size=2, max_size=6),
+                     st.sampled_from([0.3, 1, 1, 1.5]))
+
+
 def phases(tier):
     if tier == 'quick':
-        return [Search('scenarios', lambda: cases(16), 1500, shards=4)]
-    return [Search('scenarios', lambda: cases(25), 6000, shards=16)]
+        return [Search('scenarios', lambda: cases(16), 1500, shards=4),
+                Search('fractional-capacities', lambda: noise_cases(12), 500, shards=4)]
+    return [Search('scenarios', lambda: cases(25), 6000, shards=16),
+            Search('fractional-capacities', lambda: noise_cases(20), 3000, shards=16)]
 
 
 def run_case(case, ctx):
